@@ -304,6 +304,25 @@ def _harness(args):
     return key, res
 
 
+CODE_PATHS = ("p2p/security/noise/rw.go", "p2p/security/noise/crypto.go", "p2p/net/pnet/psk_conn.go",
+              "sampledconn/sampledconn.go", "p2p/muxer/yamux/stream.go", "p2p/muxer/yamux/conn.go",
+              "p2p/host/basic/basic_host.go", "p2p/net/swarm/swarm_stream.go", "p2p/security/tls/conn.go",
+              "go-yamux", "go-multistream")
+
+
+def _crash_verdict(key, log1, log2):
+    """The harness process died twice with the same seed.  If both deaths are Go panics whose stacks run
+    through the channel code, that is an observable failure of the channel; anything else is machinery."""
+    import re
+    pat = re.compile(r"^panic: (.*)$", re.M)
+    m1, m2 = pat.search(log1), pat.search(log2)
+    if m1 and m2 and any(p in log1 for p in CODE_PATHS) and any(p in log2 for p in CODE_PATHS):
+        return {"replayed": 1, "steps": 0, "distinct": 0, "samples": [], "extra": {},
+                "mismatches": [{"class": key + "-panic", "what": "the channel code panicked on one of its own goroutines (twice, same seed): %s" % m2.group(1),
+                                "got": log2[-3000:], "walk": -1, "step": -1}]}
+    raise MachineryError("harness %s crashed twice:\n%s" % (key, log2))
+
+
 def _prebuild(args):
     ctx, key = args
     if key == "stack":
@@ -388,11 +407,14 @@ def run(ctx):
     for k in keys:
         res = hres[k]
         if "crash" in res:
-            # a harness process that died: decide by re-running once
+            # a harness process that died (a panic on a goroutine of the code under test or of a library cannot
+            # be recovered by the harness): decide by re-running once
             key2, res2 = _harness((ctx, k, beh_dir, env))
             if "crash" in res2:
-                raise MachineryError("harness %s crashed twice:\n%s" % (k, res2["crash"]))
-            res = res2
+                res = _crash_verdict(k, res["crash"], res2["crash"])
+            else:
+                ctx.notes.append("harness %s crashed once and not again with the same seed" % k)
+                res = res2
         machinery += ["harness %s: %s" % (k, m["what"]) for m in res.get("mismatches", []) if m["class"] == "MACHINERY"]
         res["mismatches"] = [m for m in res.get("mismatches", []) if m["class"] != "MACHINERY"]
         div += classify_mismatches(ctx, res, k)
